@@ -9,7 +9,11 @@
 //!     pass-through entry points for the four migration storage functions; `upgrade` is run
 //!     against the hash of the prebuilt `examples/upgradeable/testdata/upgradeable_v2_example.wasm`
 //!     after which the host dispatches the contract to that wasm (its `migrate`/`upgrade` are
-//!     then the prebuilt ones) and the `Migrating` flag is read back from storage.
+//!     then the prebuilt ones) and the `Migrating` flag is read back from storage;
+//!   * a harness contract `stk::Stacked` (machine `stk`, "stacked guards"): Ownable owner, AccessControl
+//!     admin and one role "op", the Pausable trait, a counter, and twelve entry points that stack an
+//!     authorization guard (`#[only_owner]` / `#[only_admin]` / `#[only_role(caller, "op")]`) and a
+//!     pause guard (`#[when_not_paused]` / `#[when_paused]`) of the tree's macros in BOTH orders.
 use ozharness::*;
 use soroban_sdk::{contract, contractimpl, Address, BytesN, Env, IntoVal, MuxedAddress, String as SString, Val};
 use stellar_tokens::fungible::{
@@ -168,6 +172,171 @@ mod mig {
     }
 }
 
+/// machine `stk`: every entry point stacks one authorization guard and one pause guard of
+/// `stellar_macros`; `_a` / `_c` / `_r` write the authorization guard ABOVE the pause guard, `_b` / `_d` /
+/// `_r2` the pause guard above the authorization guard. `inc_*` add 1 to the counter (and return it),
+/// `reset_*` set it to 0.
+mod stk {
+    use soroban_sdk::{contract, contracterror, contractimpl, panic_with_error, symbol_short, Address, Env, Symbol};
+    use stellar_access::{access_control, ownable};
+    use stellar_contract_utils::pausable::{self as pausable, Pausable};
+    use stellar_macros::{only_admin, only_owner, only_role, when_not_paused, when_paused};
+
+    pub const COUNTER: Symbol = symbol_short!("COUNTER");
+
+    #[contracterror]
+    #[derive(Copy, Clone, Debug, Eq, PartialEq, PartialOrd, Ord)]
+    #[repr(u32)]
+    pub enum StackedError {
+        Unauthorized = 1,
+    }
+
+    #[contract]
+    pub struct Stacked;
+
+    fn bump(e: &Env) -> i32 {
+        let c: i32 = e.storage().instance().get(&COUNTER).expect("counter should be set");
+        let c = c.checked_add(1).expect("counter overflow");
+        e.storage().instance().set(&COUNTER, &c);
+        c
+    }
+
+    fn clear(e: &Env) {
+        e.storage().instance().set(&COUNTER, &0i32);
+    }
+
+    /// `pause` / `unpause` of examples/pausable, with the owner kept by `ownable`
+    fn caller_is_owner(e: &Env, caller: &Address) {
+        caller.require_auth();
+        let owner: Address = ownable::get_owner(e).expect("owner should be set");
+        if owner != *caller {
+            panic_with_error!(e, StackedError::Unauthorized);
+        }
+    }
+
+    #[contractimpl]
+    impl Stacked {
+        pub fn __constructor(e: &Env, owner: Address, admin: Address, op: Address) {
+            ownable::set_owner(e, &owner);
+            access_control::set_admin(e, &admin);
+            access_control::grant_role_no_auth(e, &op, &Symbol::new(e, "op"), &admin);
+            e.storage().instance().set(&COUNTER, &0i32);
+        }
+
+        pub fn counter(e: &Env) -> i32 {
+            e.storage().instance().get(&COUNTER).expect("counter should be set")
+        }
+
+        // ---- owner ----
+        #[only_owner]
+        #[when_not_paused]
+        pub fn inc_a(e: &Env) -> i32 {
+            bump(e)
+        }
+
+        #[when_not_paused]
+        #[only_owner]
+        pub fn inc_b(e: &Env) -> i32 {
+            bump(e)
+        }
+
+        #[only_owner]
+        #[when_paused]
+        pub fn reset_a(e: &Env) {
+            clear(e)
+        }
+
+        #[when_paused]
+        #[only_owner]
+        pub fn reset_b(e: &Env) {
+            clear(e)
+        }
+
+        // ---- admin ----
+        #[only_admin]
+        #[when_not_paused]
+        pub fn inc_c(e: &Env) -> i32 {
+            bump(e)
+        }
+
+        #[when_not_paused]
+        #[only_admin]
+        pub fn inc_d(e: &Env) -> i32 {
+            bump(e)
+        }
+
+        #[only_admin]
+        #[when_paused]
+        pub fn reset_c(e: &Env) {
+            clear(e)
+        }
+
+        #[when_paused]
+        #[only_admin]
+        pub fn reset_d(e: &Env) {
+            clear(e)
+        }
+
+        // ---- role "op" ----
+        #[only_role(caller, "op")]
+        #[when_not_paused]
+        pub fn inc_r(e: &Env, caller: Address) -> i32 {
+            bump(e)
+        }
+
+        #[when_not_paused]
+        #[only_role(caller, "op")]
+        pub fn inc_r2(e: &Env, caller: Address) -> i32 {
+            bump(e)
+        }
+
+        #[only_role(caller, "op")]
+        #[when_paused]
+        pub fn reset_r(e: &Env, caller: Address) {
+            clear(e)
+        }
+
+        #[when_paused]
+        #[only_role(caller, "op")]
+        pub fn reset_r2(e: &Env, caller: Address) {
+            clear(e)
+        }
+    }
+
+    #[contractimpl]
+    impl Pausable for Stacked {
+        fn paused(e: &Env) -> bool {
+            pausable::paused(e)
+        }
+
+        fn pause(e: &Env, caller: Address) {
+            caller_is_owner(e, &caller);
+            pausable::pause(e);
+        }
+
+        fn unpause(e: &Env, caller: Address) {
+            caller_is_owner(e, &caller);
+            pausable::unpause(e);
+        }
+    }
+}
+
+/// the guarded entry points of `stk::Stacked`: (name, principal: 'o' owner / 'a' admin / 'r' role, needs paused)
+const STK_FNS: [(&str, char, bool); 12] = [
+    ("inc_a", 'o', false),
+    ("inc_b", 'o', false),
+    ("reset_a", 'o', true),
+    ("reset_b", 'o', true),
+    ("inc_c", 'a', false),
+    ("inc_d", 'a', false),
+    ("reset_c", 'a', true),
+    ("reset_d", 'a', true),
+    ("inc_r", 'r', false),
+    ("inc_r2", 'r', false),
+    ("reset_r", 'r', true),
+    ("reset_r2", 'r', true),
+];
+
 const N: usize = 5;
 const MAX_TTL: u32 = 200_000;
 /// long-horizon Env for the idle sequences: max_entry_ttl of about one year
@@ -185,6 +354,7 @@ enum Kind {
     BEx,
     Cap,
     Mig,
+    Stk,
 }
 
 impl Kind {
@@ -198,10 +368,11 @@ impl Kind {
             Kind::BEx => "bex",
             Kind::Cap => "cap",
             Kind::Mig => "mig",
+            Kind::Stk => "stk",
         }
     }
     fn fungible(self) -> bool {
-        !matches!(self, Kind::PCnt | Kind::Mig)
+        !matches!(self, Kind::PCnt | Kind::Mig | Kind::Stk)
     }
 }
 
@@ -227,6 +398,8 @@ struct Params {
     cap: i128,
     ver: u8,
     max_ttl: u32,
+    /// machine `stk` only: the AccessControl admin (the role "op" is held by `mgr`)
+    adm: usize,
 }
 
 impl Sim {
@@ -252,12 +425,13 @@ impl Sim {
                     e.register(mig::Mig, (o,))
                 }
             }
+            Kind::Stk => e.register(stk::Stacked, (o, u.a(p.adm).clone(), m)),
         };
         let hash = if kind == Kind::Mig { Some(e.deployer().upload_contract_wasm(V2_WASM)) } else { None };
         Sim { e, u, c, kind, now: start, min_temp, ver: p.ver, hash, max_ttl: p.max_ttl }
     }
     fn label(kind: Kind, p: Params, min_temp: u32, start: u32, what: &str) -> String {
-        format!(
+        let l = format!(
             "{} kind={} owner={} mgr={} init={} cap={} ver={} max_ttl={} min_temp={} start={}",
             what,
             kind.name(),
@@ -269,7 +443,12 @@ impl Sim {
             p.max_ttl,
             min_temp,
             start
-        )
+        );
+        if kind == Kind::Stk {
+            format!("{} adm={} m=stk", l, p.adm)
+        } else {
+            l
+        }
     }
     fn addr(&self, i: usize) -> Val {
         self.u.a(i).into_val(&self.e)
@@ -299,6 +478,9 @@ impl Sim {
         catch(|| self.e.as_contract(&self.c, || stellar_tokens::fungible::capped::query_cap(&self.e)))
     }
     fn counter(&self) -> i32 {
+        if self.kind == Kind::Stk {
+            return query(&self.e, &self.c, "counter", args(&self.e, [])).unwrap();
+        }
         self.e.as_contract(&self.c, || self.e.storage().instance().get(&ex_pcnt::DataKey::Counter).unwrap())
     }
     fn migrating(&self) -> bool {
@@ -335,7 +517,7 @@ impl Sim {
     fn extra(&self) -> String {
         match self.kind {
             Kind::PTok => format!("paused={}", self.paused() as u8),
-            Kind::PCnt => format!("counter={} paused={}", self.counter(), self.paused() as u8),
+            Kind::PCnt | Kind::Stk => format!("counter={} paused={}", self.counter(), self.paused() as u8),
             Kind::ALib | Kind::AEx | Kind::BLib | Kind::BEx => {
                 let l: String = (0..N).map(|i| if self.listed(i) { '1' } else { '0' }).collect();
                 format!("list={}", l)
@@ -444,6 +626,14 @@ impl Sim {
                 ("migrate", args(e, [v(e, data), ad(a[0])]))
             }
             "upgrade" => ("upgrade", args(e, [v(e, self.hash.clone().unwrap()), ad(a[0])])),
+            // machine `stk`: the role-guarded entry points take the caller, the others nothing
+            f if STK_FNS.iter().any(|x| x.0 == f) => {
+                if a.is_empty() {
+                    (f, args(e, []))
+                } else {
+                    (f, args(e, [ad(a[0])]))
+                }
+            }
             _ => unreachable!(),
         };
         t.op(&format!("gate {} a={} d={} auth={}", name, join(a), join(d), join(auth)));
@@ -452,7 +642,7 @@ impl Sim {
         if name == "upgrade" && r.is_some() {
             self.ver = 2;
         }
-        self.observe(t, r, name == "increment");
+        self.observe(t, r, name == "increment" || name.starts_with("inc_"));
     }
     fn advance(&mut self, t: &mut Trace, n: u32) {
         self.now += n;
@@ -625,7 +815,7 @@ const BASE3: [&str; 3] = ["transfer", "transfer_from", "approve"];
 const CAP4: [&str; 6] = ["mint", "mint", "mint", "transfer", "transfer_from", "approve"];
 
 fn pp(owner: usize, mgr: usize, init: i128, cap: i128, ver: u8) -> Params {
-    Params { owner, mgr, init, cap, ver, max_ttl: MAX_TTL }
+    Params { owner, mgr, init, cap, ver, max_ttl: MAX_TTL, adm: 0 }
 }
 
 /// Run one family / sequence; a Rust panic inside it (a constructor that fails in `e.register`, a
@@ -864,7 +1054,7 @@ fn directed(t: &mut Trace) {
 const GAPS: [u32; 3] = [DAY, 31 * DAY, 100 * DAY];
 
 fn lp(owner: usize, mgr: usize, init: i128, cap: i128, ver: u8) -> Params {
-    Params { owner, mgr, init, cap, ver, max_ttl: LONG_TTL }
+    Params { owner, mgr, init, cap, ver, max_ttl: LONG_TTL, adm: 0 }
 }
 
 fn idle(t: &mut Trace) {
@@ -1132,6 +1322,171 @@ fn rand_seq(rng: &mut Rng, t: &mut Trace, kind: Kind, k: u64, seed: u64, len: u6
                     s.gate(t, "migrate", &[operator], &d, &auth);
                 }
             }
+            Kind::Stk => unreachable!("machine stk has its own generator (rand_stk)"),
+        }
+    }
+}
+
+// ---- machine `stk`: stacked authorization and pause guards -------------------------------------
+
+fn sp(owner: usize, opr: usize, adm: usize, max_ttl: u32) -> Params {
+    Params { owner, mgr: opr, init: 0, cap: 0, ver: 0, max_ttl, adm }
+}
+
+/// the principal of a guarded entry point of `stk::Stacked`
+fn stk_principal(p: Params, who: char) -> usize {
+    match who {
+        'o' => p.owner,
+        'a' => p.adm,
+        _ => p.mgr,
+    }
+}
+
+/// every guarded entry point once with each of: the right signer, the right signer among others, a wrong
+/// signer, nobody; the role-guarded ones also for a caller that does not hold the role
+fn stk_matrix(s: &mut Sim, t: &mut Trace, p: Params) {
+    for (name, who, _) in STK_FNS {
+        let pr = stk_principal(p, who);
+        let wrong = (0..N).find(|x| *x != p.owner && *x != p.adm && *x != p.mgr).unwrap_or((pr + 1) % N);
+        let other = if who == 'o' { p.adm } else { p.owner };
+        if who == 'r' {
+            s.gate(t, name, &[pr], &[], &[]);
+            s.gate(t, name, &[pr], &[], &[wrong]);
+            s.gate(t, name, &[pr], &[], &[other]);
+            s.gate(t, name, &[wrong], &[], &[wrong]); // authorizes, but does not hold the role
+            s.gate(t, name, &[other], &[], &[other, pr]);
+            s.gate(t, name, &[pr], &[], &[pr]);
+            let mut both = vec![pr, wrong];
+            both.sort();
+            both.dedup();
+            s.gate(t, name, &[pr], &[], &both);
+        } else {
+            s.gate(t, name, &[], &[], &[]);
+            s.gate(t, name, &[], &[], &[wrong]);
+            s.gate(t, name, &[], &[], &[other]);
+            s.gate(t, name, &[], &[], &[pr]);
+            let mut both = vec![pr, wrong];
+            both.sort();
+            both.dedup();
+            s.gate(t, name, &[], &[], &both);
+        }
+    }
+}
+
+fn stacked(t: &mut Trace) {
+    // distinct principals, then principals that coincide (owner = admin = role holder)
+    for (owner, opr, adm) in [(0usize, 1usize, 2usize), (3, 3, 3), (4, 0, 4)] {
+        guarded(t, "directed stk", |t| {
+        let p = sp(owner, opr, adm, MAX_TTL);
+        t.seq(&Sim::label(Kind::Stk, p, 1, 100, "directed stacked guards"));
+        let mut s = Sim::new(Kind::Stk, p, 1, 100);
+        let stranger = (0..N).find(|x| *x != owner).unwrap();
+        // not paused: inc_* open to their principal, reset_* closed for everybody
+        stk_matrix(&mut s, t, p);
+        s.gate(t, "unpause", &[owner], &[], &[owner]);
+        s.gate(t, "pause", &[stranger], &[], &[stranger]);
+        s.gate(t, "pause", &[owner], &[], &[stranger]);
+        s.gate(t, "pause", &[owner], &[], &[]);
+        s.gate(t, "pause", &[owner], &[], &[owner]);
+        s.gate(t, "pause", &[owner], &[], &[owner]);
+        // paused: inc_* closed for everybody whatever the order of the attributes, reset_* open
+        stk_matrix(&mut s, t, p);
+        s.gate(t, "unpause", &[stranger], &[], &[stranger]);
+        s.gate(t, "unpause", &[owner], &[], &[stranger]);
+        s.gate(t, "unpause", &[owner], &[], &[owner]);
+        s.gate(t, "unpause", &[owner], &[], &[owner]);
+        // works again unchanged after unpausing
+        stk_matrix(&mut s, t, p);
+        s.gate(t, "pause", &[owner], &[], &[owner]);
+        for (name, who, _) in STK_FNS {
+            let pr = stk_principal(p, who);
+            if who == 'r' {
+                s.gate(t, name, &[pr], &[], &[pr]);
+            } else {
+                s.gate(t, name, &[], &[], &[pr]);
+            }
+        }
+        });
+    }
+
+    // long idle: paused stays paused, the principals stay the principals
+    guarded(t, "idle stk", |t| {
+    let p = sp(0, 1, 2, LONG_TTL);
+    t.seq(&Sim::label(Kind::Stk, p, 1, 100, "idle stacked guards"));
+    let mut s = Sim::new(Kind::Stk, p, 1, 100);
+    s.gate(t, "inc_a", &[], &[], &[0]);
+    s.gate(t, "inc_r", &[1], &[], &[1]);
+    s.gate(t, "pause", &[0], &[], &[0]);
+    for g in GAPS {
+        s.advance(t, g);
+        for (name, who, _) in STK_FNS {
+            let pr = stk_principal(p, who);
+            if who == 'r' {
+                s.gate(t, name, &[pr], &[], &[pr]);
+                s.gate(t, name, &[pr], &[], &[]);
+            } else {
+                s.gate(t, name, &[], &[], &[pr]);
+                s.gate(t, name, &[], &[], &[]);
+            }
+        }
+        s.gate(t, "pause", &[0], &[], &[0]);
+    }
+    s.gate(t, "unpause", &[0], &[], &[0]);
+    s.advance(t, 31 * DAY);
+    for (name, who, _) in STK_FNS {
+        let pr = stk_principal(p, who);
+        if who == 'r' {
+            s.gate(t, name, &[pr], &[], &[pr]);
+        } else {
+            s.gate(t, name, &[], &[], &[pr]);
+        }
+    }
+    });
+}
+
+fn rand_stk(rng: &mut Rng, t: &mut Trace, k: u64, seed: u64, len: u64) {
+    let min_temp = if rng.chance(50) { 1 } else { 16 };
+    let start = *rng.pick(&[2u32, 100, 5000]);
+    let pa = |rng: &mut Rng| rng.below(N as u64) as usize;
+    let owner = pa(rng);
+    // a third of the sequences let principals coincide
+    let (opr, adm) = if rng.chance(33) { (owner, if rng.chance(50) { owner } else { pa(rng) }) } else { (pa(rng), pa(rng)) };
+    let long = rng.chance(20);
+    let p = sp(owner, opr, adm, if long { LONG_TTL } else { MAX_TTL });
+    t.seq(&Sim::label(Kind::Stk, p, min_temp, start, &format!("rand k={} seed={}", k, seed)));
+    let mut s = Sim::new(Kind::Stk, p, min_temp, start);
+    for _ in 0..len {
+        let r = rng.below(100);
+        if long && rng.chance(7) {
+            let n = *rng.pick(&GAPS);
+            if (s.now - start) as u64 + (n as u64) < 5_500_000 {
+                s.advance(t, n);
+            }
+            continue;
+        }
+        if r < 3 {
+            let n = *rng.pick(&[0u32, 1, 16, 100]);
+            s.advance(t, n);
+        } else if r < 28 {
+            let name = if s.paused() == rng.chance(72) { "unpause" } else { "pause" };
+            let caller = if rng.chance(78) { owner } else { pa(rng) };
+            let auth = gen_auth(rng, vec![caller], &[owner]);
+            s.gate(t, name, &[caller], &[], &auth);
+        } else {
+            // mostly an entry point whose pause condition holds (so that many calls pass), every
+            // entry point and both orders of the attributes equally often
+            let paused = s.paused();
+            let fits: Vec<(&str, char, bool)> = STK_FNS.iter().cloned().filter(|x| x.2 == paused).collect();
+            let (name, who, _) = if rng.chance(65) { *rng.pick(&fits) } else { *rng.pick(&STK_FNS) };
+            let pr = stk_principal(p, who);
+            if who == 'r' {
+                let caller = if rng.chance(78) { pr } else { pa(rng) };
+                let auth = gen_auth(rng, vec![caller], &[owner, adm, opr]);
+                s.gate(t, name, &[caller], &[], &auth);
+            } else {
+                let auth = gen_auth(rng, vec![pr], &[owner, adm, opr]);
+                s.gate(t, name, &[], &[], &auth);
+            }
         }
     }
 }
@@ -1146,6 +1501,7 @@ fn main() {
     let mut rng = Rng::new(seed);
     directed(&mut t);
     idle(&mut t);
+    stacked(&mut t);
     let kinds = [Kind::PTok, Kind::PCnt, Kind::ALib, Kind::AEx, Kind::BLib, Kind::BEx, Kind::Cap, Kind::Mig];
     let mut k = 0;
     for _ in 0..per_kind {
@@ -1157,6 +1513,13 @@ fn main() {
             }
             let l = if kind.fungible() { len } else { len / 2 + 6 };
             guarded(&mut t, "rand", |t| rand_seq(&mut rng, t, kind, k, seed, l));
+            k += 1;
+        }
+    }
+    // machine `stk` after all the others (their random streams stay what they were)
+    if only.as_deref().map(|o| o == "stk").unwrap_or(true) {
+        for _ in 0..per_kind {
+            guarded(&mut t, "rand", |t| rand_stk(&mut rng, t, k, seed, len / 2 + 10));
             k += 1;
         }
     }
